@@ -54,22 +54,39 @@ func ruleWB(c *Ctx) []*Ob {
 	fClean := c.Field("collection", "stackClean")
 	fLL := c.Field("collection", "lowerLevelSnapshot")
 
+	// the hand-over store: wherever it lives (mergerNotifyPersister today, a LOCKED helper of it tomorrow)
 	mnp := c.Fn("(*collection).mergerNotifyPersister")
 	n := 0
-	for _, a := range fieldAccesses(mnp, func(v *types.Var) bool { return v == fBase }) {
-		if a.Kind != "store" || isNilConst(a.Val) {
+	for _, f := range c.Funcs {
+		if c.isHarness(f) {
 			continue
 		}
-		n++
-		ok := mustPrecede(mnp, a.Instr, neverInstr, nilFieldEdge(fBase, true))
-		why := "the hand-over store is reachable only when stackDirtyBase == nil"
-		if !ok {
-			why = "stackDirtyBase can be overwritten while the persister is still offering it: the replaced stack's mutations are never handed to LowerLevelUpdate"
+		for _, a := range fieldAccesses(f, func(v *types.Var) bool { return v == fBase }) {
+			if a.Kind != "store" || isNilConst(a.Val) || isFreshAlloc(a.Base) {
+				continue
+			}
+			n++
+			ok := mustPrecede(f, a.Instr, neverInstr, nilFieldEdge(fBase, true))
+			if !ok {
+				// an unguarded helper whose every call site is guarded
+				sites := c.Callers(f)
+				all := len(sites) > 0
+				for _, s := range sites {
+					if !mustPrecede(s.Caller, s.Instr, neverInstr, nilFieldEdge(fBase, true)) {
+						all = false
+					}
+				}
+				ok = all
+			}
+			why := "the hand-over store is reachable only when stackDirtyBase == nil"
+			if !ok {
+				why = "stackDirtyBase can be overwritten while the persister is still offering it: the replaced stack's mutations are never handed to LowerLevelUpdate"
+			}
+			o.add(c.fname(f), "store stackDirtyBase = "+accessPath(a.Val), c.instrPos(a.Instr), ok, why)
 		}
-		o.add(c.fname(mnp), "store stackDirtyBase = "+accessPath(a.Val), c.instrPos(a.Instr), ok, why)
 	}
 	if n == 0 {
-		o.add(c.fname(mnp), "store stackDirtyBase", c.pos(mnp.Pos()), false, "anchor lost: mergerNotifyPersister no longer hands a stack to the persister")
+		o.add(c.fname(mnp), "store stackDirtyBase", c.pos(mnp.Pos()), false, "anchor lost: nothing hands a stack to the persister any more")
 	}
 
 	rp := c.Fn("(*collection).runPersister")
